@@ -24,7 +24,14 @@ var c14Templates = []string{
 	/* 9 */ "local v\x01 = 1\nfor v\x02 = \x0f, 2 do\n \x0e\nend\n",
 	/* 10 */ "local v\x01 = 1\nfor v\x02, v\x03 in pairs(\x0f) do\n \x0e\nend\n",
 	/* 11 */ "local v\x01 = 1\nlocal function v\x02(v\x03)\n return \x0f\nend\nlocal v\x04 = function(v\x05) return \x0f end\n",
+	// globals defined through the explicit global table, in the file of the request
+	/* 12 */ "_G.v\x01 = 1\nfunction _G.v\x02() end\n\x0e\nlocal v\x03 = 1\n\x0e\nfunction f()\n \x0e\nend\n",
+	/* 13 */ "\x0e\nv\x01 = 1\n_G.v\x02 = 2\n\x0e\n",
 }
+
+// a second file of the workspace: plain and _G-qualified globals (all must be offered) and a local (never)
+const c14other = "vp = 1\n_G.vq = 2\nfunction _G.vr() end\nfunction vs() end\nlocal vt = 3\nlocal function vu() end\n"
+
 
 // expression contexts the prefix is typed in: the text between `q = ` and the prefix, and the text after
 // the cursor that closes it. None of them changes which names are visible.
@@ -124,8 +131,23 @@ func VerifRun_C14() {
 		}
 	}
 	file := "/w/a.lua"
-	p := check.VpProject([]string{file}, [][]byte{src})
+	files := []string{file}
+	srcs := [][]byte{src}
+	if verifParam("OTHER") == 1 {
+		files = append(files, "/w/b.lua")
+		srcs = append(srcs, []byte(c14other))
+	}
+	p := check.VpProject(files, srcs)
 	visible, allLocals, globals, ownStmt, found := check.VpScopeAt(p, []string{file}, "v")
+	// globals defined as _G.<name> (the reference binder only sees bare names)
+	for i := 0; i+4 < len(src); i++ {
+		if src[i] == '_' && src[i+1] == 'G' && src[i+2] == '.' && src[i+3] == 'v' {
+			globals = append(globals, string(src[i+3:i+5]))
+		}
+	}
+	if verifParam("OTHER") == 1 {
+		globals = append(globals, "vp", "vq", "vr", "vs")
+	}
 	if !found {
 		verifViolation("", "harness: probe identifier not found by the reference binder")
 		return
@@ -160,6 +182,9 @@ func VerifRun_C14() {
 			verifViolation("", "a workspace global with the typed prefix is not offered")
 			break
 		}
+	}
+	if verifParam("OTHER") == 1 && (c14has(labels, "vt") || c14has(labels, "vu")) {
+		verifViolation("", "a local of another file is offered")
 	}
 	for _, n := range allLocals {
 		if len(n) == 2 && n[0] == 'v' && !c14has(visible, n) && !c14has(globals, n) && c14has(labels, n) {
